@@ -166,10 +166,11 @@ CHECKS = {
              'otherwise only raised (never overwritten with a value that can be false), and every mutation of '
              'round-surviving state raises the flag, directly or through a test of its change result. Breaking either stops '
              'the iteration before the least fixed point, i.e. gives sets that are too small. Also: every loop summary flag of '
-             'the analyses (all_done / cmplt / empty / only_reduces ...) moves only away from its initial value inside its loop.',
-        note='A necessary condition for exactness and termination-at-the-fixed-point. That the transfer functions are right is NOT '
-             'decided (on this tree FOLLOW ignores what follows a nullable neighbour - found by reading, invisible to these '
-             'rules, documented in DESIGN.md §6); nor are reachability, sentence costs and minimal sentences. Trusted: ' + TB,
+             'the analyses (all_done / cmplt / empty / only_reduces ...) moves only away from its initial value inside its loop; '
+             'and wherever FIRST(Y) of a production symbol is read as its contribution, nullable(Y) of the same Y is tested.',
+        note='A necessary condition for exactness and termination-at-the-fixed-point. That the transfer functions are right beyond the '
+             'FIRST/nullable pairing is NOT decided (the pairing rule found a real FOLLOW defect, fixed in /repo 2a78056); '
+             'nor are reachability, sentence costs and minimal sentences. Trusted: ' + TB,
         technique='structural recognition of fixed-point loops in MIR + monotone-flag and noticed-mutation checks (reachability avoiding flag-raising blocks)',
         ref='§4 C17, §10.6'),
     'C18': dict(
